@@ -300,6 +300,10 @@ def _run_engines(res, binary, tier, seed, rng, cache_dir):
             m = G.gen_signed_shift_module(rng, i)
             mods.append((m, G.gen_signed_shift_vectors(rng, m, nvec)))
             continue
+        elif r < 0.70:
+            m = G.gen_root_mask_module(rng, i)
+            mods.append((m, G.gen_root_mask_vectors(rng, m, nvec)))
+            continue
         else:
             m = G.gen_module(rng, i)
         mods.append((m, G.gen_vectors(rng, m.ports, nvec)))
